@@ -27,11 +27,15 @@ class StageWorld(object):
 
 
 def build(e, stack, enc_tables, mode='alias', tempdir=None,
-          table_factory=None, tables=None, wrap_sources=False):
+          table_factory=None, tables=None, wrap_sources=False, fluent=False):
     """-> (world, views).  stack = [[name, variant], ...]; the first entry is
     the base recipe fed from the sources, the others are unary recipes."""
     if tables is None:
         tables = [dec_table(t) for t in enc_tables]
+    if fluent:
+        # method-call style (table.func(...)) instead of petl.func(table, ...)
+        from .loader import Fluent
+        e = Fluent(e)
     # the clock petl.util.random reads (default seeds, `wait` delays) is a
     # simulated one, started afresh for every build: two builds of the same
     # stack see the same readings, and no real sleep ever happens
